@@ -23,6 +23,7 @@ from markupsafe import Markup
 from markupsafe import escape
 
 from liquid2 import PathToken
+from liquid2 import RESERVED_WORDS
 from liquid2 import RenderContext
 from liquid2 import Token
 from liquid2 import TokenStream
@@ -556,6 +557,7 @@ class LambdaExpression(Expression):
 
 
 RE_PROPERTY = re.compile(r"[\u0080-\uFFFFa-zA-Z_][\u0080-\uFFFFa-zA-Z0-9_-]*")
+
 Segments: TypeAlias = tuple[Union[str, int, "Segments"], ...]
 
 
@@ -574,16 +576,28 @@ class Path(Expression):
                 self.path.append(segment)
 
     def __str__(self) -> str:
-        it = iter(self.path)
-        buf = [str(next(it))]
-        for segment in it:
+        return self._str(nested=False)
+
+    def _str(self, *, nested: bool) -> str:
+        buf: list[str] = []
+        for index, segment in enumerate(self.path):
             if isinstance(segment, Path):
-                buf.append(f"[{segment}]")
+                buf.append(f"[{segment._str(nested=True)}]")
             elif isinstance(segment, str):
-                if RE_PROPERTY.fullmatch(segment):
+                if not RE_PROPERTY.fullmatch(segment):
+                    buf.append(f"[{_string_repr(segment)}]")
+                elif index:
                     buf.append(f".{segment}")
+                elif (
+                    not nested
+                    and len(self.path) == 1
+                    and segment in RESERVED_WORDS
+                ):
+                    # On its own, a reserved word would not be read as a variable.
+                    # Inside brackets it is.
+                    buf.append(f"[{_string_repr(segment)}]")
                 else:
-                    buf.append(f"[{segment!r}]")
+                    buf.append(segment)
             else:
                 buf.append(f"[{segment}]")
         return "".join(buf)
